@@ -112,7 +112,13 @@ func VerifC10RuleOrder() {
 	p := NewProcessor(1)
 	fofe := zz.Bool("failOnFirst")
 	p.SetFailOnFirstErrorInTriggerSequence(fofe)
+	// the names of the rules in the order they are added: any arrangement (the order of execution depends on priorities only)
 	names := []string{"r0", "r1", "r2", "r3", "r4"}
+	if zz.Bool("namesDescending") {
+		names = []string{"r9", "r8", "r7", "r6", "r5"}
+	} else if zz.Bool("namesMixed") {
+		names = []string{"r5", "r1", "r8", "r0", "r3"}
+	}
 	prio := make([]int, n)
 	fail := make([]bool, n)
 	var trace []int
